@@ -30,7 +30,9 @@ def with_init(case, learner, cells):
         outs = sorted({o for o, _ in cells})
         cues = sorted({cu for _, cu in cells})
         c['init_lw'] = {'outcomes': outs, 'cues': cues,
-                        'vals': [cells.get((o, cu), '0/1') for o in outs for cu in cues]}
+                        'vals': [cells.get((o, cu), '0/1') for o in outs for cu in cues],
+                        # memory layout of the DataArray handed in (derived from the content, so it replays)
+                        'layout': ['c', 'f', 'transposed', 'slice'][sum(len(v) for v in cells.values()) % 4]}
     return c
 
 
